@@ -204,4 +204,20 @@ def masJudge (kind fmt : String) (mas : Int) (lens : List Int) (impl : String) :
         else s!"fail:accepted:{kind} line {i + 1} is longer than max_ammo_size and the run ended with {b}"
       | none => "ok"
 
+/-- `k=runend` (round 6): the provider as its consumers see it once `Run` has returned. Whatever made `Run` return - the end
+of the file, an error in it, a file that cannot be opened, a cancelled context - every later `Acquire` must return (what is
+buffered, then "no more ammo"): a sink left open blocks every instance for ever. A file that cannot be opened is an error. -/
+def runendJudge (kind fault impl : String) : String :=
+  match crashVerdict kind impl with
+  | some v =>
+    if containsSub impl "end=hang" && kvOf impl "run" != "hang" && kvOf impl "run" != "" then
+      s!"fail:hang:{kind}: Run returned ({kvOf impl "run"}) but Acquire still blocks: the sink was not closed (fault: {fault})"
+    else v
+  | none =>
+    if containsSub impl "end=ctor-err" then "ok"
+    else if kvOf impl "end" != "closed" then s!"fail:driver:observation without end=closed: {impl.take 60}"
+    else if (fault == "missing" || fault == "perm") && kvOf impl "run" == "ok" then
+      s!"fail:accepted:{kind}: an ammo file that cannot be opened ({fault}) was accepted: {impl.take 60}"
+    else "ok"
+
 end Pandora.Spec.C13
